@@ -30,8 +30,8 @@ XZ = {(0, 0): 'I', (1, 0): 'X', (1, 1): 'Y', (0, 1): 'Z'}
 class Scripted:
     """A generator whose random() returns the scripted midpoint variates."""
 
-    def __init__(self, js, d2):
-        self.us = [(2 * j + 1) / (2 * d2) for j in js]
+    def __init__(self, js, d2, us=None):
+        self.us = [(2 * j + 1) / (2 * d2) for j in js] if us is None else list(us)
         self.calls = 0
 
     def _next(self):
@@ -128,6 +128,16 @@ def drive(item):
             rec['samples'].append({'js': js, 'letters': letters, 'draws': gen.calls,
                                    'len': int(e.shape[0]),
                                    'binary': bool(np.all((e == 0) | (e == 1)))})
+        # the ends of the variate's range [0, 1): exactly 0.0 and the largest
+        # float below 1 on every qubit - whatever the sampler does at a cell
+        # boundary, a Pauli of probability zero must not come out
+        rec['edge'] = []
+        for u in (0.0, float(np.nextafter(1.0, 0.0))):
+            gen = Scripted([], d2, us=[u] * (4 * n))
+            e = np.asarray(em.generate(code, p, rng=gen)).ravel()
+            ok = e.shape[0] == 2 * n
+            rec['edge'].append([XZ.get((int(e[q]), int(e[n + q])), '?') if ok else '?'
+                                for q in range(n)])
         # fast_choice directly, every variate, channel of qubit 0
         for j in range(d2):
             gen = Scripted([j], d2)
@@ -155,7 +165,7 @@ def drive(item):
                 passes.append(([to_g(x) for x in bx], [to_g(x) for x in bz], deform_code))
             rec['bp_px'], rec['bp_pz'], _ = passes[0]
             for bx, bz, _ in passes[1:]:
-                extra = dict(rec, bp_px=bx, bp_pz=bz, samples=[], fast=[], wx=[], wz=[], upd=[])
+                extra = dict(rec, bp_px=bx, bp_pz=bz, samples=[], fast=[], wx=[], wz=[], upd=[], edge=[])
                 extra['_label'] = f'{codes.label(name, size, dn, kw)} pn={pn} r={r} (decoder on deformed code)'
                 extra['_cost'] = n
                 recs.append(extra)
@@ -209,7 +219,7 @@ def interference(item):
                 recs.append({'Den': den, 'G': G, 'pn': pn, 'r': list(r), 'n': int(n), 'D': D,
                              'tables': [[on_grid(pi[q], d2), on_grid(px[q], d2), on_grid(py[q], d2),
                                          on_grid(pz[q], d2)] for q in range(n)],
-                             'samples': [], 'fast': [],
+                             'samples': [], 'fast': [], 'edge': [],
                              'wx': [marginal_from_weight(w) for w in wx],
                              'wz': [marginal_from_weight(w) for w in wz],
                              'bp_px': [], 'bp_pz': [], 'upd': [],
@@ -260,7 +270,7 @@ def shared_model(item):
                              'samples': [{'js': js, 'letters': letters, 'draws': gen.calls,
                                           'len': int(e.shape[0]),
                                           'binary': bool(np.all((e == 0) | (e == 1)))}],
-                             'fast': [], 'wx': [], 'wz': [], 'bp_px': [], 'bp_pz': [], 'upd': [],
+                             'fast': [], 'edge': [], 'wx': [], 'wz': [], 'bp_px': [], 'bp_pz': [], 'upd': [],
                              '_label': f'{codes.label(name, size, dn, kw)} pn={pn} r={r} '
                                        f'(one model shared by {len(objs)} codes of equal n, pass {rep})',
                              '_cost': n})
